@@ -85,6 +85,16 @@ def handle : Handler
       if !c.WF then some "err malformed"
       else if !(Container.values c).all (memB d) then some "err not-in-dtype"
       else some ("ok " ++ showRows (toCsrRowsD d c))) "bad-args"
+  -- check_format(x, allow_empty): the refusal of a matrix that stores nothing
+  | "c01.check", [dt, fmt, nr, nc, payload, allow] => some <| Option.getD (do
+      let d ← dtype? dt
+      let c ← container? fmt nr nc payload
+      let al ← bool? allow
+      if !c.WF then some "err malformed"
+      else if !(Container.values c).all (memB d) then some "err not-in-dtype"
+      else match checkFormatE d al c with
+        | .error _ => some "err ValueError"
+        | .ok c' => some ("ok " ++ showRows (toCsrRows c'))) "bad-args"
   | _, _ => none
 
 end SkNet.Drive.C01
